@@ -44,13 +44,18 @@ class In(object):
         shown = txt[self.mark:]
         self.mark = len(txt)
         prompt = shown.split("\n")[-1]
+        if self.pos < len(self.answers) and self.answers[self.pos] == "\x03":
+            # the user presses Ctrl-C at this question: the read is broken off by KeyboardInterrupt (as end of input breaks it off by EOFError)
+            self.pos += 1
+            self.events.append({"ev": "Eof", "how": "interrupt", "prompt": esc(prompt), "shown": esc(shown)})
+            raise KeyboardInterrupt()
         if self.pos < len(self.answers):
             ans = self.answers[self.pos]
             self.pos += 1
             self.events.append({"ev": "Read", "prompt": esc(prompt), "shown": esc(shown), "answer": esc(ans)})
             r = ans + "\n"
             return r if sys.version_info[0] > 2 else r.encode("utf-8")
-        self.events.append({"ev": "Eof", "prompt": esc(prompt), "shown": esc(shown)})
+        self.events.append({"ev": "Eof", "how": "eof", "prompt": esc(prompt), "shown": esc(shown)})
         return "" if sys.version_info[0] > 2 else b""
 
     def read(self, *a):
@@ -79,10 +84,15 @@ def session(it):
                 ver = int(ver)
             elif it.get("num") == "float":
                 ver = float(ver)
-            v = ask_interactively(ver, it["all"], it.get("no_colors", True))
+            if len(it["script"]) % 2:          # the documented signature, positionally and by keyword
+                v = ask_interactively(ver, it["all"], it.get("no_colors", True))
+            else:
+                v = ask_interactively(no_colors=it.get("no_colors", True), version=ver, all_metrics=it["all"])
             events.append({"ev": "Return", "value": esc(v)})
         except EOFError:
-            events.append({"ev": "EofError"})
+            events.append({"ev": "EofError", "exc": "EOFError"})
+        except KeyboardInterrupt:
+            events.append({"ev": "EofError", "exc": "KeyboardInterrupt"})
         except BaseException as e:  # noqa
             events.append({"ev": "Raise", "exc": type(e).__name__})
     finally:
